@@ -152,16 +152,38 @@ func c15Value(r *rand.Rand, depth int) any {
 	}
 }
 
-var c15Keys = []string{"port\x11", "max\x7fcon", "port1", "max_con", "Port\x111", "a\x00b", "listen", "limit", "port", "mode", "x", "a", "ab", "a_b", "A_B", "count", "max_latency", "MaxLatency", "sub", "sub.n1", "sub.n2", "inner", "p", "s", "i", "j", "m", "l", "f", "c", "base", "tag", "own", "hidden", "shown", "name", "Name", "q"}
+// c15FoldNames: Go field names that equal an ASCII key under case folding although the letters have another
+// width in UTF-8 (KELVIN SIGN, LONG S, ANGSTROM SIGN, OHM SIGN, capital sharp s, dotless/dotted i do not fold to ASCII and stay out)
+var c15FoldNames = map[string]string{"k": "\u212a", "ok": "O\u212a", "kind": "\u212aind", "mist": "Mi\u017ft", "sk": "S\u212a", "ks": "\u212a\u017f",
+	"\u00e5": "\u212b", "b\u00e5": "B\u212b", "\u03c9": "\u2126", "\u03c9x": "\u2126x", "ma\u00df": "Ma\u1e9e", "\u00dfa": "\u1e9ea"}
 
-func c15Block(r *rand.Rand, depth int) bcl.Block {
+var c15Keys = []string{"k", "ok", "kind", "mist", "sk", "ks", "\u00e5", "b\u00e5", "\u03c9", "\u03c9x", "ma\u00df", "\u00dfa", "port\x11", "max\x7fcon", "port1", "max_con", "Port\x111", "a\x00b", "listen", "limit", "port", "mode", "x", "a", "ab", "a_b", "A_B", "count", "max_latency", "MaxLatency", "sub", "sub.n1", "sub.n2", "inner", "p", "s", "i", "j", "m", "l", "f", "c", "base", "tag", "own", "hidden", "shown", "name", "Name", "q"}
+
+func c15Block(r *rand.Rand, depth int) bcl.Block { return c15BlockW(r, depth, false) }
+
+func c15BlockW(r *rand.Rand, depth int, forceWide bool) bcl.Block {
 	b := bcl.Block{Type: []string{"blk", "t", "with_pointers", "withembedded", "with_unexported", "a", "sub", "inner", "i", "p"}[r.Intn(10)], Fields: map[string]any{}}
 	if r.Intn(2) == 0 {
 		b.Name = []string{"n", "nm", "x y"}[r.Intn(3)]
 	}
-	for k, n := 0, r.Intn(5); k < n; k++ {
+	nf := r.Intn(5)
+	wide := depth <= 1 && r.Intn(12) == 0 || forceWide
+	if wide {
+		// wide blocks (9..40 fields), also nested in each other
+		nf = 9 + r.Intn(12)
+		if r.Intn(4) == 0 {
+			nf = 17 + r.Intn(24)
+		}
+	}
+	for k, n := 0, nf; k < n; k++ {
 		key := c15Keys[r.Intn(len(c15Keys))]
+		if wide {
+			key = fmt.Sprintf("%c%d", "wpaz"[r.Intn(4)], r.Intn(2*nf))
+		}
 		v := c15Value(r, depth)
+		if wide && k < 3 && depth == 0 && r.Intn(2) == 0 {
+			v = c15BlockW(r, depth+1, r.Intn(3) > 0)
+		}
 		if cb, ok := v.(bcl.Block); ok {
 			// a nested block is stored under its own key, as the VM does
 			key = cb.Type
@@ -170,6 +192,31 @@ func c15Block(r *rand.Rand, depth int) bcl.Block {
 			}
 		}
 		b.Fields[key] = v
+	}
+	if wide && depth == 0 && r.Intn(2) == 0 {
+		// a child that looks like its parent: most of the parent's plain fields again, with values of the same types
+		child := bcl.Block{Type: []string{"sub", "inner", "a", "zz"}[r.Intn(4)], Fields: map[string]any{}}
+		keys := make([]string, 0, len(b.Fields))
+		for k := range b.Fields {
+			keys = append(keys, k)
+		}
+		sort.Strings(keys)
+		for _, k := range keys {
+			if r.Intn(5) == 0 {
+				continue
+			}
+			switch v := b.Fields[k].(type) {
+			case int:
+				child.Fields[k] = v + 1000
+			case float64:
+				child.Fields[k] = v + 0.5
+			case string:
+				child.Fields[k] = v + "'"
+			case bool:
+				child.Fields[k] = !v
+			}
+		}
+		b.Fields[child.Type] = child
 	}
 	if r.Intn(8) == 0 {
 		b.Fields = nil
@@ -211,7 +258,9 @@ func c15TargetType(r *rand.Rand, b bcl.Block, mutate bool) reflect.Type {
 		} else {
 			tag = k
 		}
-		if !validGoName(goName) || goName[0] < 'A' || goName[0] > 'Z' {
+		if alt, ok := c15FoldNames[k]; ok && r.Intn(3) > 0 {
+			goName, tag = alt, ""
+		} else if !validGoName(goName) || goName[0] < 'A' || goName[0] > 'Z' {
 			// keys that no Go identifier can spell (control bytes): reachable through a tag only
 			goName = fmt.Sprintf("K%x", base)
 			tag = k
